@@ -32,7 +32,7 @@ RULES = [
     {"name": "Numbered", "match": 'regex("\\\\d+")', "category": "Numbered", "tags": '{extract("(\\\\d+)")}'},
     {"name": "Plain", "match": 'contains("AMAZON")', "category": "Shopping"},
     {"name": "TagLarge", "match": "amount > 100", "tags": "large"},
-    {"name": "TagRide", "match": 'contains("UBER")', "tags": "ride, {}"},
+    {"name": "TagRide", "match": 'contains("UBER")', "tags": "{}, ride, , {  }, last"},
     {"name": "TagSpecific", "match": 'contains("UBER") and contains("EATS") and amount > 0 and source == "Amex"',
      "tags": "premium, {field.nope}"},
     {"name": "TagSub", "match": 'contains("UBER") and contains("TRIP") and contains("77")', "tags": "Trip", "subcategory": "Sneaky",
@@ -51,7 +51,7 @@ RULES = [
 ]
 CSVROWS = [
     {"pattern": "NETFLIX", "merchant": "Netflix", "category": "Subs", "subcategory": "Streaming", "tags": "a|B"},
-    {"pattern": "UBER", "merchant": "Uber", "category": "Transport", "subcategory": "Ride", "tags": "ride"},
+    {"pattern": "UBER", "merchant": "Uber", "category": "Transport", "subcategory": "Ride", "tags": "{}|ride| |after"},
     {"pattern": "UBER EATS", "merchant": "UberEatsTag", "category": "", "subcategory": "", "tags": "Food| delivery "},
     {"pattern": "NETFLIX|UBER[amount>100]", "merchant": "BigTag", "category": "", "subcategory": "", "tags": "large"},
     {"pattern": "AMAZON", "merchant": "Amazon", "category": "Shopping", "subcategory": "Online"},
@@ -225,7 +225,8 @@ def check_csv(case):
         n = 0
         for pos, i in enumerate(seq):
             if tr[pos][ti]:
-                tg = {x.strip().lower() for x in CSVROWS[i].get("tags", "").split("|") if x.strip()}
+                # an empty dynamic tag `{}` / `{ }` contributes nothing (the alphabet holds no other dynamic CSV tags)
+                tg = {x.strip().lower() for x in CSVROWS[i].get("tags", "").split("|") if x.strip() and not re.fullmatch(r"\{\s*\}", x.strip())}
                 exp |= tg
                 n += 1 if tg else 0
                 if not CSVROWS[i]["category"]:
